@@ -1440,6 +1440,8 @@ impl Engine for E2 {
     }
     fn generate(&self, seed: u64, prop: &str) -> RunRecord {
         let (cfg, cmds) = gen_cmds(seed);
+        crate::abort::tee_cfg("E2", "server", &serde_json::to_value(&cfg).unwrap());
+        crate::abort::tee_cmds(&cmds);
         let (outcome, _) = execute(&cfg, &cmds, false, prop);
         RunRecord { engine: "E2", profile: "server".into(), cfg: serde_json::to_value(&cfg).unwrap(), cmds: cmds.iter().map(|c| serde_json::to_value(c).unwrap()).collect(), outcome }
     }
